@@ -11,7 +11,8 @@ from vlib.runner import Outcome, Part
 
 ID = "C01"
 RULE = (
-    "Hypothesis-generated autograd programs (1-4 leaves of rank 0-3 incl. 0-d, equal-numel leaves favoured, leaves "
+    "Hypothesis-generated autograd programs (part `generated`: 1-4 leaves of rank 0-3, 1-8 nodes; part `larger_programs`: "
+    "2-6 leaves of rank 0-4, up to 16 nodes, up to 4 outputs) (1-4 leaves of rank 0-3 incl. 0-d, equal-numel leaves favoured, leaves "
     "not requiring grad, unused leaves; 1-8 SSA nodes over 24 ops: smooth unary, add/sub/mul with broadcasting / "
     "reshape / dense-map coercions, reductions, reshape/permute/expand/select/narrow/cat/stack, unbind/split, detach), "
     "1-3 output tensors of any shape (passed as list / tuple / bare tensor), `inputs` = drawn sub-list of the leaves in a "
@@ -42,11 +43,14 @@ REQUIRED_CLASSES = {"equal-numel-inputs": 1, "reused-leaf": 1, "unused-input": 1
 
 
 @st.composite
-def _case(draw):
+def _case(draw, big=False):
     # configuration choices are expanded from a seed drawn FIRST: Hypothesis biases late draws of long examples
     # towards their simplest value, which starved the interesting configurations (measured: 51% position coding)
     rng = np.random.default_rng(draw(st.integers(0, 2**32 - 1)))
-    prog = draw(P.programs(max_leaves=4, max_nodes=8, max_outputs=3, min_leaves=draw(st.sampled_from([1, 2, 2, 3]))))
+    if big:
+        prog = draw(P.programs(max_leaves=6, max_nodes=16, max_outputs=4, min_leaves=draw(st.sampled_from([2, 3, 4])), max_rank=4))
+    else:
+        prog = draw(P.programs(max_leaves=4, max_nodes=8, max_outputs=3, min_leaves=draw(st.sampled_from([1, 2, 2, 3]))))
     shapes = P.infer_shapes(prog)
     m = sum(P.numel(shapes[tuple(r)]) for r in prog["outputs"])
     rg = [i for i, lf in enumerate(prog["leaves"]) if lf["rg"]]
@@ -73,7 +77,9 @@ def _case(draw):
 
 def parts(tier):
     n = 20_000 if tier == "quick" else 600_000
-    return [Part("generated", "given", n=n, strategy=_case)]
+    n_big = 1_500 if tier == "quick" else 60_000
+    return [Part("generated", "given", n=n, strategy=_case),
+            Part("larger_programs", "given", n=n_big, strategy=lambda: _case(big=True))]
 
 
 def _features(prog, inputs, shapes, dual):
